@@ -159,8 +159,9 @@ theorem envAfter_get_x0 (env : Env) (x0 kv a b c d k : Nat) (h : x0 < env.size) 
   simp only [size_setVar]; exact h
 
 /-- what the loop needs to know about the environment: the state pointer, the round counter and the four state words -/
-structure Inv (env : Env) (ptr r a b c d : Nat) : Prop where
-  size : env.size = 26
+structure Inv (nv : Nat) (env : Env) (ptr r a b c d : Nat) : Prop where
+  size : env.size = nv
+  big : 26 ≤ nv
   e0 : env[0]? = some (ptr, Lab.pub)
   e1 : env[1]? = some (r, Lab.pub)
   e6 : env[6]? = some (a, Lab.sec)
@@ -186,7 +187,7 @@ theorem KeyMem.leak {st : St} {bs : Nat} {blk : Block} {k0 k1 k2 k3 : Nat} (h : 
 /-- one block at the head of a statement sequence -/
 theorem exec_seq_blk (prog : Program) (f : Nat → Nat) (hf : ∀ i, f (i + 1) = Fu (f i)) (m : Nat)
     (env : Env) (st : St) (x0 x1 x2 x3 kv koff : Nat) (a b c d k : Nat) (bs : Nat) (blk : Block) (rest : Stmt)
-    (hsz : env.size = 26) (hx0 : x0 < 26) (hkv : 14 ≤ kv ∧ kv < 26)
+    (hsz : 26 ≤ env.size) (hx0 : x0 < 26) (hkv : 14 ≤ kv ∧ kv < 26)
     (hx : (x0 = 6 ∨ x0 = 8 ∨ x0 = 10 ∨ x0 = 12) ∧ (x2 = 6 ∨ x2 = 8 ∨ x2 = 10 ∨ x2 = 12) ∧ (x3 = 6 ∨ x3 = 8 ∨ x3 = 10 ∨ x3 = 12))
     (e0 : env[0]? = some (mkPtr bs blk.base, .pub)) (ea : env[x0]? = some (a, .sec)) (eb : env[x1]? = some (b, .sec))
     (ec : env[x2]? = some (c, .sec)) (ed : env[x3]? = some (d, .sec))
@@ -201,45 +202,45 @@ theorem exec_seq_blk (prog : Program) (f : Nat → Nat) (hf : ∀ i, f (i + 1) =
     (by decide) (by omega) (by omega) e0 ea eb ec ed hb hbase hbb hal hko hk]
 
 
-theorem Inv.after6 {env : Env} {ptr r a b c d : Nat} (h : Inv env ptr r a b c d) (kv : Nat) (hkv : 14 ≤ kv ∧ kv < 26) (x y z w k : Nat) :
-    Inv (envAfter env 6 kv x y z w k) ptr r (st32N x y z w k) b c d :=
-  ⟨by rw [size_envAfter]; exact h.size,
+theorem Inv.after6 {nv : Nat} {env : Env} {ptr r a b c d : Nat} (h : Inv nv env ptr r a b c d) (kv : Nat) (hkv : 14 ≤ kv ∧ kv < 26) (x y z w k : Nat) :
+    Inv nv (envAfter env 6 kv x y z w k) ptr r (st32N x y z w k) b c d :=
+  ⟨by rw [size_envAfter]; exact h.size, h.big,
    by rw [envAfter_get _ _ _ _ _ _ _ _ _ (by omega) (by omega) (by omega) (by omega) (by omega) (by omega)]; exact h.e0,
    by rw [envAfter_get _ _ _ _ _ _ _ _ _ (by omega) (by omega) (by omega) (by omega) (by omega) (by omega)]; exact h.e1,
-   by rw [envAfter_get_x0 _ _ _ _ _ _ _ _ (by rw [h.size]; omega)],
+   by rw [envAfter_get_x0 _ _ _ _ _ _ _ _ (by have := h.size; have := h.big; omega)],
    by rw [envAfter_get _ _ _ _ _ _ _ _ _ (by omega) (by omega) (by omega) (by omega) (by omega) (by omega)]; exact h.e8,
    by rw [envAfter_get _ _ _ _ _ _ _ _ _ (by omega) (by omega) (by omega) (by omega) (by omega) (by omega)]; exact h.e10,
    by rw [envAfter_get _ _ _ _ _ _ _ _ _ (by omega) (by omega) (by omega) (by omega) (by omega) (by omega)]; exact h.e12⟩
 
-theorem Inv.after8 {env : Env} {ptr r a b c d : Nat} (h : Inv env ptr r a b c d) (kv : Nat) (hkv : 14 ≤ kv ∧ kv < 26) (x y z w k : Nat) :
-    Inv (envAfter env 8 kv x y z w k) ptr r a (st32N x y z w k) c d :=
-  ⟨by rw [size_envAfter]; exact h.size,
+theorem Inv.after8 {nv : Nat} {env : Env} {ptr r a b c d : Nat} (h : Inv nv env ptr r a b c d) (kv : Nat) (hkv : 14 ≤ kv ∧ kv < 26) (x y z w k : Nat) :
+    Inv nv (envAfter env 8 kv x y z w k) ptr r a (st32N x y z w k) c d :=
+  ⟨by rw [size_envAfter]; exact h.size, h.big,
    by rw [envAfter_get _ _ _ _ _ _ _ _ _ (by omega) (by omega) (by omega) (by omega) (by omega) (by omega)]; exact h.e0,
    by rw [envAfter_get _ _ _ _ _ _ _ _ _ (by omega) (by omega) (by omega) (by omega) (by omega) (by omega)]; exact h.e1,
    by rw [envAfter_get _ _ _ _ _ _ _ _ _ (by omega) (by omega) (by omega) (by omega) (by omega) (by omega)]; exact h.e6,
-   by rw [envAfter_get_x0 _ _ _ _ _ _ _ _ (by rw [h.size]; omega)],
+   by rw [envAfter_get_x0 _ _ _ _ _ _ _ _ (by have := h.size; have := h.big; omega)],
    by rw [envAfter_get _ _ _ _ _ _ _ _ _ (by omega) (by omega) (by omega) (by omega) (by omega) (by omega)]; exact h.e10,
    by rw [envAfter_get _ _ _ _ _ _ _ _ _ (by omega) (by omega) (by omega) (by omega) (by omega) (by omega)]; exact h.e12⟩
 
-theorem Inv.after10 {env : Env} {ptr r a b c d : Nat} (h : Inv env ptr r a b c d) (kv : Nat) (hkv : 14 ≤ kv ∧ kv < 26) (x y z w k : Nat) :
-    Inv (envAfter env 10 kv x y z w k) ptr r a b (st32N x y z w k) d :=
-  ⟨by rw [size_envAfter]; exact h.size,
+theorem Inv.after10 {nv : Nat} {env : Env} {ptr r a b c d : Nat} (h : Inv nv env ptr r a b c d) (kv : Nat) (hkv : 14 ≤ kv ∧ kv < 26) (x y z w k : Nat) :
+    Inv nv (envAfter env 10 kv x y z w k) ptr r a b (st32N x y z w k) d :=
+  ⟨by rw [size_envAfter]; exact h.size, h.big,
    by rw [envAfter_get _ _ _ _ _ _ _ _ _ (by omega) (by omega) (by omega) (by omega) (by omega) (by omega)]; exact h.e0,
    by rw [envAfter_get _ _ _ _ _ _ _ _ _ (by omega) (by omega) (by omega) (by omega) (by omega) (by omega)]; exact h.e1,
    by rw [envAfter_get _ _ _ _ _ _ _ _ _ (by omega) (by omega) (by omega) (by omega) (by omega) (by omega)]; exact h.e6,
    by rw [envAfter_get _ _ _ _ _ _ _ _ _ (by omega) (by omega) (by omega) (by omega) (by omega) (by omega)]; exact h.e8,
-   by rw [envAfter_get_x0 _ _ _ _ _ _ _ _ (by rw [h.size]; omega)],
+   by rw [envAfter_get_x0 _ _ _ _ _ _ _ _ (by have := h.size; have := h.big; omega)],
    by rw [envAfter_get _ _ _ _ _ _ _ _ _ (by omega) (by omega) (by omega) (by omega) (by omega) (by omega)]; exact h.e12⟩
 
-theorem Inv.after12 {env : Env} {ptr r a b c d : Nat} (h : Inv env ptr r a b c d) (kv : Nat) (hkv : 14 ≤ kv ∧ kv < 26) (x y z w k : Nat) :
-    Inv (envAfter env 12 kv x y z w k) ptr r a b c (st32N x y z w k) :=
-  ⟨by rw [size_envAfter]; exact h.size,
+theorem Inv.after12 {nv : Nat} {env : Env} {ptr r a b c d : Nat} (h : Inv nv env ptr r a b c d) (kv : Nat) (hkv : 14 ≤ kv ∧ kv < 26) (x y z w k : Nat) :
+    Inv nv (envAfter env 12 kv x y z w k) ptr r a b c (st32N x y z w k) :=
+  ⟨by rw [size_envAfter]; exact h.size, h.big,
    by rw [envAfter_get _ _ _ _ _ _ _ _ _ (by omega) (by omega) (by omega) (by omega) (by omega) (by omega)]; exact h.e0,
    by rw [envAfter_get _ _ _ _ _ _ _ _ _ (by omega) (by omega) (by omega) (by omega) (by omega) (by omega)]; exact h.e1,
    by rw [envAfter_get _ _ _ _ _ _ _ _ _ (by omega) (by omega) (by omega) (by omega) (by omega) (by omega)]; exact h.e6,
    by rw [envAfter_get _ _ _ _ _ _ _ _ _ (by omega) (by omega) (by omega) (by omega) (by omega) (by omega)]; exact h.e8,
    by rw [envAfter_get _ _ _ _ _ _ _ _ _ (by omega) (by omega) (by omega) (by omega) (by omega) (by omega)]; exact h.e10,
-   by rw [envAfter_get_x0 _ _ _ _ _ _ _ _ (by rw [h.size]; omega)]⟩
+   by rw [envAfter_get_x0 _ _ _ _ _ _ _ _ (by have := h.size; have := h.big; omega)]⟩
 
 /-- one 128-step round of the C code on naturals -/
 def roundN (a b c d k0 k1 k2 k3 : Nat) : Nat × Nat × Nat × Nat :=
@@ -249,111 +250,126 @@ def roundN (a b c d k0 k1 k2 k3 : Nat) : Nat × Nat × Nat × Nat :=
   let d' := st32N d a' b' c' k3
   (a', b', c', d')
 
-/-- four blocks (one round, key words at offsets o, o+4, o+8, o+12 of the state object) at the head of a statement sequence -/
-theorem exec_round (prog : Program) (f : Nat → Nat) (hf : ∀ i, f (i + 1) = Fu (f i)) (m : Nat)
-    (env : Env) (st : St) (ptr r a b c d : Nat) (kva kvb kvc kvd : Nat) (o : Nat) (k0 k1 k2 k3 : Nat) (bs : Nat) (blk : Block) (rest : Stmt)
-    (inv : Inv env ptr r a b c d) (hptr : ptr = mkPtr bs blk.base)
+/-- four blocks (one round, key words at offsets o0, o1, o2, o3 of the state object) at the head of a statement sequence -/
+theorem exec_round (prog : Program) (f : Nat → Nat) (hf : ∀ i, f (i + 1) = Fu (f i)) (m : Nat) (nv : Nat)
+    (env : Env) (st : St) (ptr r a b c d : Nat) (kva kvb kvc kvd : Nat) (o0 o1 o2 o3 : Nat) (k0 k1 k2 k3 : Nat) (bs : Nat) (blk : Block) (rest : Stmt)
+    (inv : Inv nv env ptr r a b c d) (hptr : ptr = mkPtr bs blk.base)
     (ha : 14 ≤ kva ∧ kva < 26) (hb' : 14 ≤ kvb ∧ kvb < 26) (hc : 14 ≤ kvc ∧ kvc < 26) (hd : 14 ≤ kvd ∧ kvd < 26)
-    (hb : st.mem[bs]? = some blk) (hal : blk.base % 4 = 0) (ho : o % 4 = 0) (hlt : blk.base + o + 16 < ptrBase) (hbb : bs < 2 ^ 30)
-    (hsz : o + 16 ≤ blk.bytes.size)
-    (r0 : readLE blk.bytes o 4 = some (k0, .sec)) (r1 : readLE blk.bytes (o + 4) 4 = some (k1, .sec))
-    (r2 : readLE blk.bytes (o + 8) 4 = some (k2, .sec)) (r3 : readLE blk.bytes (o + 12) 4 = some (k3, .sec)) :
+    (hb : st.mem[bs]? = some blk) (hal : blk.base % 4 = 0) (ho : o0 % 4 = 0 ∧ o1 % 4 = 0 ∧ o2 % 4 = 0 ∧ o3 % 4 = 0)
+    (hlt : blk.base + blk.bytes.size < ptrBase) (hbb : bs < 2 ^ 30)
+    (hsz : o0 + 4 ≤ blk.bytes.size ∧ o1 + 4 ≤ blk.bytes.size ∧ o2 + 4 ≤ blk.bytes.size ∧ o3 + 4 ≤ blk.bytes.size)
+    (r0 : readLE blk.bytes o0 4 = some (k0, .sec)) (r1 : readLE blk.bytes o1 4 = some (k1, .sec))
+    (r2 : readLE blk.bytes o2 4 = some (k2, .sec)) (r3 : readLE blk.bytes o3 4 = some (k3, .sec)) :
     ∃ env' leak', exec prog (f (m + 10))
-        (.seq (stepsBlk 6 8 10 12 kva o) (.seq (stepsBlk 8 10 12 6 kvb (o + 4)) (.seq (stepsBlk 10 12 6 8 kvc (o + 8)) (.seq (stepsBlk 12 6 8 10 kvd (o + 12)) rest)))) env st =
+        (.seq (stepsBlk 6 8 10 12 kva o0) (.seq (stepsBlk 8 10 12 6 kvb o1) (.seq (stepsBlk 10 12 6 8 kvc o2) (.seq (stepsBlk 12 6 8 10 kvd o3) rest)))) env st =
       exec prog (f (m + 6)) rest env' { st with leak := leak' } ∧
-      Inv env' ptr r (roundN a b c d k0 k1 k2 k3).1 (roundN a b c d k0 k1 k2 k3).2.1 (roundN a b c d k0 k1 k2 k3).2.2.1 (roundN a b c d k0 k1 k2 k3).2.2.2 := by
+      Inv nv env' ptr r (roundN a b c d k0 k1 k2 k3).1 (roundN a b c d k0 k1 k2 k3).2.1 (roundN a b c d k0 k1 k2 k3).2.2.1 (roundN a b c d k0 k1 k2 k3).2.2.2 := by
   subst hptr
   have i1 := inv.after6 kva ha a b c d k0
   have i2 := i1.after8 kvb hb' b c d (st32N a b c d k0) k1
   have i3 := i2.after10 kvc hc c d (st32N a b c d k0) (st32N b c d (st32N a b c d k0) k1) k2
   have i4 := i3.after12 kvd hd d (st32N a b c d k0) (st32N b c d (st32N a b c d k0) k1) (st32N c d (st32N a b c d k0) (st32N b c d (st32N a b c d k0) k1) k2) k3
-  refine ⟨_, Ev.rd (mkPtr bs (blk.base + (o + 12))) 4 :: Ev.rd (mkPtr bs (blk.base + (o + 8))) 4 :: Ev.rd (mkPtr bs (blk.base + (o + 4))) 4 ::
-    Ev.rd (mkPtr bs (blk.base + o)) 4 :: st.leak, ?_, i4⟩
+  have z0 : 26 ≤ env.size := by have := inv.size; have := inv.big; omega
+  have z1 := i1.size; have z1' := i1.big
+  have z2 := i2.size; have z2' := i2.big
+  have z3 := i3.size; have z3' := i3.big
+  obtain ⟨ho0, ho1, ho2, ho3⟩ := ho
+  obtain ⟨hs0, hs1, hs2, hs3⟩ := hsz
+  refine ⟨_, Ev.rd (mkPtr bs (blk.base + o3)) 4 :: Ev.rd (mkPtr bs (blk.base + o2)) 4 :: Ev.rd (mkPtr bs (blk.base + o1)) 4 ::
+    Ev.rd (mkPtr bs (blk.base + o0)) 4 :: st.leak, ?_, i4⟩
   rw [show m + 10 = m + 3 + 7 from by omega]
-  rw [exec_seq_blk prog f hf (m + 3) env st 6 8 10 12 kva o a b c d k0 bs blk _ inv.size (by omega) ha (by omega)
+  rw [exec_seq_blk prog f hf (m + 3) env st 6 8 10 12 kva o0 a b c d k0 bs blk _ z0 (by omega) ha (by omega)
     inv.e0 inv.e6 inv.e8 inv.e10 inv.e12 hb (by omega) hbb (by omega) (by omega) r0]
   rw [show m + 3 + 6 = m + 2 + 7 from by omega]
-  rw [exec_seq_blk prog f hf (m + 2) _ { st with leak := Ev.rd (mkPtr bs (blk.base + o)) 4 :: st.leak } 8 10 12 6 kvb (o + 4) b c d (st32N a b c d k0) k1 bs blk _ i1.size (by omega) hb' (by omega)
+  rw [exec_seq_blk prog f hf (m + 2) _ { st with leak := Ev.rd (mkPtr bs (blk.base + o0)) 4 :: st.leak } 8 10 12 6 kvb o1 b c d (st32N a b c d k0) k1 bs blk _ (by omega) (by omega) hb' (by omega)
     i1.e0 i1.e8 i1.e10 i1.e12 i1.e6 hb (by omega) hbb (by omega) (by omega) r1]
   rw [show m + 2 + 6 = m + 1 + 7 from by omega]
-  rw [exec_seq_blk prog f hf (m + 1) _ { st with leak := Ev.rd (mkPtr bs (blk.base + (o + 4))) 4 :: Ev.rd (mkPtr bs (blk.base + o)) 4 :: st.leak } 10 12 6 8 kvc (o + 8) c d (st32N a b c d k0) (st32N b c d (st32N a b c d k0) k1) k2 bs blk _ i2.size (by omega) hc (by omega)
+  rw [exec_seq_blk prog f hf (m + 1) _ { st with leak := Ev.rd (mkPtr bs (blk.base + o1)) 4 :: Ev.rd (mkPtr bs (blk.base + o0)) 4 :: st.leak } 10 12 6 8 kvc o2 c d (st32N a b c d k0) (st32N b c d (st32N a b c d k0) k1) k2 bs blk _ (by omega) (by omega) hc (by omega)
     i2.e0 i2.e10 i2.e12 i2.e6 i2.e8 hb (by omega) hbb (by omega) (by omega) r2]
   rw [show m + 1 + 6 = m + 7 from by omega]
-  rw [exec_seq_blk prog f hf m _ { st with leak := Ev.rd (mkPtr bs (blk.base + (o + 8))) 4 :: Ev.rd (mkPtr bs (blk.base + (o + 4))) 4 :: Ev.rd (mkPtr bs (blk.base + o)) 4 :: st.leak } 12 6 8 10 kvd (o + 12) d (st32N a b c d k0) (st32N b c d (st32N a b c d k0) k1)
-    (st32N c d (st32N a b c d k0) (st32N b c d (st32N a b c d k0) k1) k2) k3 bs blk _ i3.size (by omega) hd (by omega)
+  rw [exec_seq_blk prog f hf m _ { st with leak := Ev.rd (mkPtr bs (blk.base + o2)) 4 :: Ev.rd (mkPtr bs (blk.base + o1)) 4 :: Ev.rd (mkPtr bs (blk.base + o0)) 4 :: st.leak } 12 6 8 10 kvd o3 d (st32N a b c d k0) (st32N b c d (st32N a b c d k0) k1)
+    (st32N c d (st32N a b c d k0) (st32N b c d (st32N a b c d k0) k1) k2) k3 bs blk _ (by omega) (by omega) hd (by omega)
     i3.e0 i3.e12 i3.e6 i3.e8 i3.e10 hb (by omega) hbb (by omega) (by omega) r3]
 
 /-- three blocks followed by a final block that ends its statement sequence -/
-theorem exec_round_last (prog : Program) (f : Nat → Nat) (hf : ∀ i, f (i + 1) = Fu (f i)) (m : Nat)
-    (env : Env) (st : St) (ptr r a b c d : Nat) (kva kvb kvc kvd : Nat) (o : Nat) (k0 k1 k2 k3 : Nat) (bs : Nat) (blk : Block)
-    (inv : Inv env ptr r a b c d) (hptr : ptr = mkPtr bs blk.base)
+theorem exec_round_last (prog : Program) (f : Nat → Nat) (hf : ∀ i, f (i + 1) = Fu (f i)) (m : Nat) (nv : Nat)
+    (env : Env) (st : St) (ptr r a b c d : Nat) (kva kvb kvc kvd : Nat) (o0 o1 o2 o3 : Nat) (k0 k1 k2 k3 : Nat) (bs : Nat) (blk : Block)
+    (inv : Inv nv env ptr r a b c d) (hptr : ptr = mkPtr bs blk.base)
     (ha : 14 ≤ kva ∧ kva < 26) (hb' : 14 ≤ kvb ∧ kvb < 26) (hc : 14 ≤ kvc ∧ kvc < 26) (hd : 14 ≤ kvd ∧ kvd < 26)
-    (hb : st.mem[bs]? = some blk) (hal : blk.base % 4 = 0) (ho : o % 4 = 0) (hlt : blk.base + o + 16 < ptrBase) (hbb : bs < 2 ^ 30)
-    (hsz : o + 16 ≤ blk.bytes.size)
-    (r0 : readLE blk.bytes o 4 = some (k0, .sec)) (r1 : readLE blk.bytes (o + 4) 4 = some (k1, .sec))
-    (r2 : readLE blk.bytes (o + 8) 4 = some (k2, .sec)) (r3 : readLE blk.bytes (o + 12) 4 = some (k3, .sec)) :
+    (hb : st.mem[bs]? = some blk) (hal : blk.base % 4 = 0) (ho : o0 % 4 = 0 ∧ o1 % 4 = 0 ∧ o2 % 4 = 0 ∧ o3 % 4 = 0)
+    (hlt : blk.base + blk.bytes.size < ptrBase) (hbb : bs < 2 ^ 30)
+    (hsz : o0 + 4 ≤ blk.bytes.size ∧ o1 + 4 ≤ blk.bytes.size ∧ o2 + 4 ≤ blk.bytes.size ∧ o3 + 4 ≤ blk.bytes.size)
+    (r0 : readLE blk.bytes o0 4 = some (k0, .sec)) (r1 : readLE blk.bytes o1 4 = some (k1, .sec))
+    (r2 : readLE blk.bytes o2 4 = some (k2, .sec)) (r3 : readLE blk.bytes o3 4 = some (k3, .sec)) :
     ∃ env' leak', exec prog (f (m + 9))
-        (.seq (stepsBlk 6 8 10 12 kva o) (.seq (stepsBlk 8 10 12 6 kvb (o + 4)) (.seq (stepsBlk 10 12 6 8 kvc (o + 8)) (stepsBlk 12 6 8 10 kvd (o + 12))))) env st =
+        (.seq (stepsBlk 6 8 10 12 kva o0) (.seq (stepsBlk 8 10 12 6 kvb o1) (.seq (stepsBlk 10 12 6 8 kvc o2) (stepsBlk 12 6 8 10 kvd o3)))) env st =
       .ok .normal env' { st with leak := leak' } ∧
-      Inv env' ptr r (roundN a b c d k0 k1 k2 k3).1 (roundN a b c d k0 k1 k2 k3).2.1 (roundN a b c d k0 k1 k2 k3).2.2.1 (roundN a b c d k0 k1 k2 k3).2.2.2 := by
+      Inv nv env' ptr r (roundN a b c d k0 k1 k2 k3).1 (roundN a b c d k0 k1 k2 k3).2.1 (roundN a b c d k0 k1 k2 k3).2.2.1 (roundN a b c d k0 k1 k2 k3).2.2.2 := by
   subst hptr
   have i1 := inv.after6 kva ha a b c d k0
   have i2 := i1.after8 kvb hb' b c d (st32N a b c d k0) k1
   have i3 := i2.after10 kvc hc c d (st32N a b c d k0) (st32N b c d (st32N a b c d k0) k1) k2
   have i4 := i3.after12 kvd hd d (st32N a b c d k0) (st32N b c d (st32N a b c d k0) k1) (st32N c d (st32N a b c d k0) (st32N b c d (st32N a b c d k0) k1) k2) k3
-  refine ⟨_, Ev.rd (mkPtr bs (blk.base + (o + 12))) 4 :: Ev.rd (mkPtr bs (blk.base + (o + 8))) 4 :: Ev.rd (mkPtr bs (blk.base + (o + 4))) 4 ::
-    Ev.rd (mkPtr bs (blk.base + o)) 4 :: st.leak, ?_, i4⟩
+  have z0 : 26 ≤ env.size := by have := inv.size; have := inv.big; omega
+  have z1 := i1.size; have z1' := i1.big
+  have z2 := i2.size; have z2' := i2.big
+  have z3 := i3.size; have z3' := i3.big
+  obtain ⟨ho0, ho1, ho2, ho3⟩ := ho
+  obtain ⟨hs0, hs1, hs2, hs3⟩ := hsz
+  refine ⟨_, Ev.rd (mkPtr bs (blk.base + o3)) 4 :: Ev.rd (mkPtr bs (blk.base + o2)) 4 :: Ev.rd (mkPtr bs (blk.base + o1)) 4 ::
+    Ev.rd (mkPtr bs (blk.base + o0)) 4 :: st.leak, ?_, i4⟩
   rw [show m + 9 = m + 2 + 7 from by omega]
-  rw [exec_seq_blk prog f hf (m + 2) env st 6 8 10 12 kva o a b c d k0 bs blk _ inv.size (by omega) ha (by omega)
+  rw [exec_seq_blk prog f hf (m + 2) env st 6 8 10 12 kva o0 a b c d k0 bs blk _ z0 (by omega) ha (by omega)
     inv.e0 inv.e6 inv.e8 inv.e10 inv.e12 hb (by omega) hbb (by omega) (by omega) r0]
   rw [show m + 2 + 6 = m + 1 + 7 from by omega]
-  rw [exec_seq_blk prog f hf (m + 1) _ { st with leak := Ev.rd (mkPtr bs (blk.base + o)) 4 :: st.leak } 8 10 12 6 kvb (o + 4) b c d (st32N a b c d k0) k1 bs blk _ i1.size (by omega) hb' (by omega)
+  rw [exec_seq_blk prog f hf (m + 1) _ { st with leak := Ev.rd (mkPtr bs (blk.base + o0)) 4 :: st.leak } 8 10 12 6 kvb o1 b c d (st32N a b c d k0) k1 bs blk _ (by omega) (by omega) hb' (by omega)
     i1.e0 i1.e8 i1.e10 i1.e12 i1.e6 hb (by omega) hbb (by omega) (by omega) r1]
   rw [show m + 1 + 6 = m + 7 from by omega]
-  rw [exec_seq_blk prog f hf m _ { st with leak := Ev.rd (mkPtr bs (blk.base + (o + 4))) 4 :: Ev.rd (mkPtr bs (blk.base + o)) 4 :: st.leak } 10 12 6 8 kvc (o + 8) c d (st32N a b c d k0) (st32N b c d (st32N a b c d k0) k1) k2 bs blk _ i2.size (by omega) hc (by omega)
+  rw [exec_seq_blk prog f hf m _ { st with leak := Ev.rd (mkPtr bs (blk.base + o1)) 4 :: Ev.rd (mkPtr bs (blk.base + o0)) 4 :: st.leak } 10 12 6 8 kvc o2 c d (st32N a b c d k0) (st32N b c d (st32N a b c d k0) k1) k2 bs blk _ (by omega) (by omega) hc (by omega)
     i2.e0 i2.e10 i2.e12 i2.e6 i2.e8 hb (by omega) hbb (by omega) (by omega) r2]
   rw [exec_stepsBlk prog (f (m + 6)) (f (m + 5)) (f (m + 4)) (f (m + 3)) (f (m + 2)) (f (m + 1)) (f m)
-    (hf _) (hf _) (hf _) (hf _) (hf _) (hf _) _ { st with leak := Ev.rd (mkPtr bs (blk.base + (o + 8))) 4 :: Ev.rd (mkPtr bs (blk.base + (o + 4))) 4 :: Ev.rd (mkPtr bs (blk.base + o)) 4 :: st.leak }
-    12 6 8 10 kvd (o + 12) d (st32N a b c d k0) (st32N b c d (st32N a b c d k0) k1)
+    (hf _) (hf _) (hf _) (hf _) (hf _) (hf _) _ { st with leak := Ev.rd (mkPtr bs (blk.base + o2)) 4 :: Ev.rd (mkPtr bs (blk.base + o1)) 4 :: Ev.rd (mkPtr bs (blk.base + o0)) 4 :: st.leak }
+    12 6 8 10 kvd o3 d (st32N a b c d k0) (st32N b c d (st32N a b c d k0) k1)
     (st32N c d (st32N a b c d k0) (st32N b c d (st32N a b c d k0) k1) k2) k3 bs blk
-    (by rw [i3.size]; omega) (by rw [i3.size]; omega) (by rw [i3.size]; omega) (by omega) (by omega) (by omega) (by omega) (by omega) (by omega)
+    (by omega) (by omega) (by omega) (by omega) (by omega) (by omega) (by omega) (by omega) (by omega)
     (by decide) (by omega) (by omega) i3.e0 i3.e12 i3.e6 i3.e8 i3.e10 hb (by omega) hbb (by omega) (by omega) r3]
 
-/-! ### the 128-bit variant: loop shape, counter arithmetic, loop theorem -/
+/-! ### the 128- and 256-bit variants: loop shape (two rounds per iteration, early exit after the first), counter arithmetic, loop theorem.
+   The two differ only in where the second round's key words lie (offset `o` = 16 for 128-bit keys, 32 for 256-bit keys). -/
 
 def ctl : Stmt := seqs [.assign 1 (.bin .sub .u32 (.var 1) (.lit 1)), .ite (.bin .eq .u32 (.var 1) (.cast .u32 .i32 (.lit 0))) .brk .skip]
 
-def loop128 : Stmt :=
+def loopG (o : Nat) : Stmt :=
   .loop (.ite (.bin .gt .u32 (.var 1) (.cast .u32 .i32 (.lit 0)))
     (seqs [seqs [stepsBlk 6 8 10 12 14 16, stepsBlk 8 10 12 6 15 20, stepsBlk 10 12 6 8 16 24, stepsBlk 12 6 8 10 17 28, ctl,
-                 stepsBlk 6 8 10 12 18 16, stepsBlk 8 10 12 6 19 20, stepsBlk 10 12 6 8 20 24, stepsBlk 12 6 8 10 21 28],
+                 stepsBlk 6 8 10 12 18 o, stepsBlk 8 10 12 6 19 (o + 4), stepsBlk 10 12 6 8 20 (o + 8), stepsBlk 12 6 8 10 21 (o + 12)],
            .assign 1 (.bin .sub .u32 (.var 1) (.lit 1))])
     .brk)
 
-/-- `tinyjambu_permutation_128` on naturals, with the loop structure of the C code (two rounds per iteration, early exit) -/
-def permN128 (k0 k1 k2 k3 : Nat) : Nat → Nat × Nat × Nat × Nat → Nat × Nat × Nat × Nat
+/-- the permutation on naturals with the loop structure of the C code: rounds alternate between key words k0..k3 and k4..k7 -/
+def permNG (k0 k1 k2 k3 k4 k5 k6 k7 : Nat) : Nat → Nat × Nat × Nat × Nat → Nat × Nat × Nat × Nat
   | 0, s => s
   | 1, s => roundN s.1 s.2.1 s.2.2.1 s.2.2.2 k0 k1 k2 k3
   | n + 2, s =>
     let s1 := roundN s.1 s.2.1 s.2.2.1 s.2.2.2 k0 k1 k2 k3
-    permN128 k0 k1 k2 k3 n (roundN s1.1 s1.2.1 s1.2.2.1 s1.2.2.2 k0 k1 k2 k3)
+    permNG k0 k1 k2 k3 k4 k5 k6 k7 n (roundN s1.1 s1.2.1 s1.2.2.1 s1.2.2.2 k4 k5 k6 k7)
 
 theorem dec32 (r : Nat) (h : r + 1 < 4294967296) : (r + 1 + 4294967296 - 1 % 4294967296) % 4294967296 = r := by omega
 
-theorem Inv.set1 {env : Env} {ptr r a b c d : Nat} (h : Inv env ptr r a b c d) (r' : Nat) : Inv (setVar env 1 (r', .pub)) ptr r' a b c d :=
-  ⟨by rw [size_setVar]; exact h.size,
+theorem Inv.set1 {nv : Nat} {env : Env} {ptr r a b c d : Nat} (h : Inv nv env ptr r a b c d) (r' : Nat) : Inv nv (setVar env 1 (r', .pub)) ptr r' a b c d :=
+  ⟨by rw [size_setVar]; exact h.size, h.big,
    by rw [get_set_ne _ _ _ _ (by decide)]; exact h.e0,
-   by rw [get_set_eq _ _ _ (by rw [h.size]; decide)],
+   by rw [get_set_eq _ _ _ (by have := h.size; have := h.big; omega)],
    by rw [get_set_ne _ _ _ _ (by decide)]; exact h.e6,
    by rw [get_set_ne _ _ _ _ (by decide)]; exact h.e8,
    by rw [get_set_ne _ _ _ _ (by decide)]; exact h.e10,
    by rw [get_set_ne _ _ _ _ (by decide)]; exact h.e12⟩
 
 /-- the loop exits immediately when the counter is 0 -/
-theorem loop128_zero (prog : Program) (f : Nat → Nat) (hf : ∀ i, f (i + 1) = Fu (f i)) (m : Nat)
-    (env : Env) (st : St) (ptr a b c d : Nat) (inv : Inv env ptr 0 a b c d) :
-    exec prog (f (m + 3)) loop128 env st = .ok .normal env { st with leak := Ev.br false :: st.leak } := by
-  unfold loop128
+theorem loopG_zero (prog : Program) (f : Nat → Nat) (hf : ∀ i, f (i + 1) = Fu (f i)) (m o nv : Nat)
+    (env : Env) (st : St) (ptr a b c d : Nat) (inv : Inv nv env ptr 0 a b c d) :
+    exec prog (f (m + 3)) (loopG o) env st = .ok .normal env { st with leak := Ev.br false :: st.leak } := by
+  unfold loopG
   rw [exec_loop' prog (hf (m + 2)), exec_ite' prog (hf (m + 1))]
   simp only [evalE, inv.e1, reduceCtorEq, if_false, castVal_u32_i32_zero, BinOp.needsPub2, BinOp.needsPub1, Bool.false_and, Bool.or_self,
     Bool.false_eq_true, binVal, Ty.signed, gt_iff_lt, Nat.lt_irrefl, decide_false, b2n, Lab.join_pub_pub, ne_eq, not_true_eq_false,
@@ -361,32 +377,40 @@ theorem loop128_zero (prog : Program) (f : Nat → Nat) (hf : ∀ i, f (i + 1) =
   rw [exec_brk' prog (hf m)]
 
 
-/-- everything the two iteration lemmas need about memory, in one place -/
-structure KM (st : St) (bs : Nat) (blk : Block) (k0 k1 k2 k3 : Nat) : Prop where
+/-- everything the iteration lemmas need about memory, in one place: the state object, its first four key words at 16..28 and
+    the second round's four key words at `o`..`o+12` -/
+structure KM (st : St) (bs : Nat) (blk : Block) (o : Nat) (k0 k1 k2 k3 k4 k5 k6 k7 : Nat) : Prop where
   hb : st.mem[bs]? = some blk
   al : blk.base % 4 = 0
-  lt : blk.base + 32 < ptrBase
+  lt : blk.base + blk.bytes.size < ptrBase
   bb : bs < 2 ^ 30
   sz : 32 ≤ blk.bytes.size
+  oal : o % 4 = 0
+  osz : o + 16 ≤ blk.bytes.size
   r0 : readLE blk.bytes 16 4 = some (k0, Lab.sec)
-  r1 : readLE blk.bytes (16 + 4) 4 = some (k1, Lab.sec)
-  r2 : readLE blk.bytes (16 + 8) 4 = some (k2, Lab.sec)
-  r3 : readLE blk.bytes (16 + 12) 4 = some (k3, Lab.sec)
+  r1 : readLE blk.bytes 20 4 = some (k1, Lab.sec)
+  r2 : readLE blk.bytes 24 4 = some (k2, Lab.sec)
+  r3 : readLE blk.bytes 28 4 = some (k3, Lab.sec)
+  r4 : readLE blk.bytes o 4 = some (k4, Lab.sec)
+  r5 : readLE blk.bytes (o + 4) 4 = some (k5, Lab.sec)
+  r6 : readLE blk.bytes (o + 8) 4 = some (k6, Lab.sec)
+  r7 : readLE blk.bytes (o + 12) 4 = some (k7, Lab.sec)
 
 /-- counter = 1: one round, then the early exit -/
-theorem loop128_one (prog : Program) (f : Nat → Nat) (hf : ∀ i, f (i + 1) = Fu (f i)) (m : Nat)
-    (env : Env) (st : St) (a b c d k0 k1 k2 k3 bs : Nat) (blk : Block)
-    (inv : Inv env (mkPtr bs blk.base) 1 a b c d) (km : KM st bs blk k0 k1 k2 k3) :
-    ∃ env' leak', exec prog (f (m + 18)) loop128 env st = .ok .normal env' { st with leak := leak' } ∧
-      Inv env' (mkPtr bs blk.base) 0 (roundN a b c d k0 k1 k2 k3).1 (roundN a b c d k0 k1 k2 k3).2.1
+theorem loopG_one (prog : Program) (f : Nat → Nat) (hf : ∀ i, f (i + 1) = Fu (f i)) (m o nv : Nat)
+    (env : Env) (st : St) (a b c d k0 k1 k2 k3 k4 k5 k6 k7 bs : Nat) (blk : Block)
+    (inv : Inv nv env (mkPtr bs blk.base) 1 a b c d) (km : KM st bs blk o k0 k1 k2 k3 k4 k5 k6 k7) :
+    ∃ env' leak', exec prog (f (m + 18)) (loopG o) env st = .ok .normal env' { st with leak := leak' } ∧
+      Inv nv env' (mkPtr bs blk.base) 0 (roundN a b c d k0 k1 k2 k3).1 (roundN a b c d k0 k1 k2 k3).2.1
         (roundN a b c d k0 k1 k2 k3).2.2.1 (roundN a b c d k0 k1 k2 k3).2.2.2 := by
-  obtain ⟨env1, l1, h1, inv1⟩ := exec_round prog f hf (m + 5) env { st with leak := Ev.br true :: st.leak } (mkPtr bs blk.base) 1 a b c d 14 15 16 17 16
+  have hsz := km.sz
+  obtain ⟨env1, l1, h1, inv1⟩ := exec_round prog f hf (m + 5) nv env { st with leak := Ev.br true :: st.leak } (mkPtr bs blk.base) 1 a b c d 14 15 16 17 16 20 24 28
     k0 k1 k2 k3 bs blk
-    (.seq ctl (.seq (stepsBlk 6 8 10 12 18 16) (.seq (stepsBlk 8 10 12 6 19 20) (.seq (stepsBlk 10 12 6 8 20 24) (stepsBlk 12 6 8 10 21 28)))))
-    inv rfl (by decide) (by decide) (by decide) (by decide) km.hb km.al (by decide) (by have := km.lt; omega) km.bb (by have := km.sz; omega)
+    (.seq ctl (.seq (stepsBlk 6 8 10 12 18 o) (.seq (stepsBlk 8 10 12 6 19 (o + 4)) (.seq (stepsBlk 10 12 6 8 20 (o + 8)) (stepsBlk 12 6 8 10 21 (o + 12))))))
+    inv rfl (by decide) (by decide) (by decide) (by decide) km.hb km.al (by decide) km.lt km.bb (by omega)
     km.r0 km.r1 km.r2 km.r3
   refine ⟨setVar env1 1 (0, .pub), Ev.br true :: l1, ?_, inv1.set1 0⟩
-  unfold loop128
+  unfold loopG
   rw [exec_loop' prog (hf (m + 17)), exec_ite' prog (hf (m + 16))]
   simp only [evalE, inv.e1, reduceCtorEq, if_false, castVal_u32_i32_zero, BinOp.needsPub2, BinOp.needsPub1, Bool.false_and, Bool.or_self,
     Bool.false_eq_true, binVal, Ty.signed, gt_iff_lt, Nat.zero_lt_one, decide_true, b2n, Lab.join_pub_pub, ne_eq, not_true_eq_false, if_true,
@@ -400,33 +424,36 @@ theorem loop128_one (prog : Program) (f : Nat → Nat) (hf : ∀ i, f (i + 1) = 
   simp only [evalE, inv1.e1, reduceCtorEq, if_false, BinOp.needsPub2, BinOp.needsPub1, Bool.false_and, Bool.or_self, Bool.false_eq_true, binVal,
     Ty.modulus, Lab.join_pub_pub, dec32 0 (by decide)]
   rw [exec_ite' prog (hf (m + 8))]
-  simp only [evalE, get_set_eq _ _ _ (show 1 < env1.size from by rw [inv1.size]; decide), reduceCtorEq, if_false, castVal_u32_i32_zero,
+  simp only [evalE, get_set_eq _ _ _ (show 1 < env1.size from by have := inv1.size; have := inv1.big; omega), reduceCtorEq, if_false, castVal_u32_i32_zero,
     BinOp.needsPub2, BinOp.needsPub1, Bool.false_and, Bool.or_self, Bool.false_eq_true, binVal, decide_true, b2n, Lab.join_pub_pub, ne_eq,
     not_true_eq_false, if_true, show ((1 : Nat) != 0) = true from rfl]
   rw [exec_brk' prog (hf (m + 7))]
 
 
 /-- counter ≥ 2: two rounds, counter decreased by 2, and the loop goes round again -/
-theorem loop128_two (prog : Program) (f : Nat → Nat) (hf : ∀ i, f (i + 1) = Fu (f i)) (m : Nat)
-    (env : Env) (st : St) (n a b c d k0 k1 k2 k3 bs : Nat) (blk : Block) (hn : n + 2 < 4294967296)
-    (inv : Inv env (mkPtr bs blk.base) (n + 2) a b c d) (km : KM st bs blk k0 k1 k2 k3) :
-    ∃ env' leak', exec prog (f (m + 18)) loop128 env st = exec prog (f (m + 17)) loop128 env' { st with leak := leak' } ∧
-      Inv env' (mkPtr bs blk.base) n
-        (roundN (roundN a b c d k0 k1 k2 k3).1 (roundN a b c d k0 k1 k2 k3).2.1 (roundN a b c d k0 k1 k2 k3).2.2.1 (roundN a b c d k0 k1 k2 k3).2.2.2 k0 k1 k2 k3).1
-        (roundN (roundN a b c d k0 k1 k2 k3).1 (roundN a b c d k0 k1 k2 k3).2.1 (roundN a b c d k0 k1 k2 k3).2.2.1 (roundN a b c d k0 k1 k2 k3).2.2.2 k0 k1 k2 k3).2.1
-        (roundN (roundN a b c d k0 k1 k2 k3).1 (roundN a b c d k0 k1 k2 k3).2.1 (roundN a b c d k0 k1 k2 k3).2.2.1 (roundN a b c d k0 k1 k2 k3).2.2.2 k0 k1 k2 k3).2.2.1
-        (roundN (roundN a b c d k0 k1 k2 k3).1 (roundN a b c d k0 k1 k2 k3).2.1 (roundN a b c d k0 k1 k2 k3).2.2.1 (roundN a b c d k0 k1 k2 k3).2.2.2 k0 k1 k2 k3).2.2.2 := by
-  obtain ⟨env1, l1, h1, inv1⟩ := exec_round prog f hf (m + 5) env { st with leak := Ev.br true :: st.leak } (mkPtr bs blk.base) (n + 2) a b c d 14 15 16 17 16
+theorem loopG_two (prog : Program) (f : Nat → Nat) (hf : ∀ i, f (i + 1) = Fu (f i)) (m o nv : Nat)
+    (env : Env) (st : St) (n a b c d k0 k1 k2 k3 k4 k5 k6 k7 bs : Nat) (blk : Block) (hn : n + 2 < 4294967296)
+    (inv : Inv nv env (mkPtr bs blk.base) (n + 2) a b c d) (km : KM st bs blk o k0 k1 k2 k3 k4 k5 k6 k7) :
+    ∃ env' leak', exec prog (f (m + 18)) (loopG o) env st = exec prog (f (m + 17)) (loopG o) env' { st with leak := leak' } ∧
+      Inv nv env' (mkPtr bs blk.base) n
+        (roundN (roundN a b c d k0 k1 k2 k3).1 (roundN a b c d k0 k1 k2 k3).2.1 (roundN a b c d k0 k1 k2 k3).2.2.1 (roundN a b c d k0 k1 k2 k3).2.2.2 k4 k5 k6 k7).1
+        (roundN (roundN a b c d k0 k1 k2 k3).1 (roundN a b c d k0 k1 k2 k3).2.1 (roundN a b c d k0 k1 k2 k3).2.2.1 (roundN a b c d k0 k1 k2 k3).2.2.2 k4 k5 k6 k7).2.1
+        (roundN (roundN a b c d k0 k1 k2 k3).1 (roundN a b c d k0 k1 k2 k3).2.1 (roundN a b c d k0 k1 k2 k3).2.2.1 (roundN a b c d k0 k1 k2 k3).2.2.2 k4 k5 k6 k7).2.2.1
+        (roundN (roundN a b c d k0 k1 k2 k3).1 (roundN a b c d k0 k1 k2 k3).2.1 (roundN a b c d k0 k1 k2 k3).2.2.1 (roundN a b c d k0 k1 k2 k3).2.2.2 k4 k5 k6 k7).2.2.2 := by
+  have hsz := km.sz
+  have hosz := km.osz
+  have hoal := km.oal
+  obtain ⟨env1, l1, h1, inv1⟩ := exec_round prog f hf (m + 5) nv env { st with leak := Ev.br true :: st.leak } (mkPtr bs blk.base) (n + 2) a b c d 14 15 16 17 16 20 24 28
     k0 k1 k2 k3 bs blk
-    (.seq ctl (.seq (stepsBlk 6 8 10 12 18 16) (.seq (stepsBlk 8 10 12 6 19 20) (.seq (stepsBlk 10 12 6 8 20 24) (stepsBlk 12 6 8 10 21 28)))))
-    inv rfl (by decide) (by decide) (by decide) (by decide) km.hb km.al (by decide) (by have := km.lt; omega) km.bb (by have := km.sz; omega)
+    (.seq ctl (.seq (stepsBlk 6 8 10 12 18 o) (.seq (stepsBlk 8 10 12 6 19 (o + 4)) (.seq (stepsBlk 10 12 6 8 20 (o + 8)) (stepsBlk 12 6 8 10 21 (o + 12))))))
+    inv rfl (by decide) (by decide) (by decide) (by decide) km.hb km.al (by decide) km.lt km.bb (by omega)
     km.r0 km.r1 km.r2 km.r3
   have inv1' := inv1.set1 (n + 1)
-  obtain ⟨env2, l2, h2, inv2⟩ := exec_round_last prog f hf (m + 1) (setVar env1 1 (n + 1, .pub)) { st with leak := Ev.br false :: l1 } (mkPtr bs blk.base) (n + 1)
-    _ _ _ _ 18 19 20 21 16 k0 k1 k2 k3 bs blk inv1' rfl (by decide) (by decide) (by decide) (by decide) km.hb km.al (by decide)
-    (by have := km.lt; omega) km.bb (by have := km.sz; omega) km.r0 km.r1 km.r2 km.r3
+  obtain ⟨env2, l2, h2, inv2⟩ := exec_round_last prog f hf (m + 1) nv (setVar env1 1 (n + 1, .pub)) { st with leak := Ev.br false :: l1 } (mkPtr bs blk.base) (n + 1)
+    _ _ _ _ 18 19 20 21 o (o + 4) (o + 8) (o + 12) k4 k5 k6 k7 bs blk inv1' rfl (by decide) (by decide) (by decide) (by decide) km.hb km.al (by omega)
+    km.lt km.bb (by omega) km.r4 km.r5 km.r6 km.r7
   refine ⟨setVar env2 1 (n, .pub), l2, ?_, inv2.set1 n⟩
-  unfold loop128
+  unfold loopG
   rw [exec_loop' prog (hf (m + 17)), exec_ite' prog (hf (m + 16))]
   simp only [evalE, inv.e1, reduceCtorEq, if_false, castVal_u32_i32_zero, BinOp.needsPub2, BinOp.needsPub1, Bool.false_and, Bool.or_self,
     Bool.false_eq_true, binVal, Ty.signed, gt_iff_lt, Nat.zero_lt_succ, decide_true, b2n, Lab.join_pub_pub, ne_eq, not_true_eq_false, if_true,
@@ -441,7 +468,7 @@ theorem loop128_two (prog : Program) (f : Nat → Nat) (hf : ∀ i, f (i + 1) = 
     Ty.modulus, Lab.join_pub_pub, dec32 (n + 1) (by omega)]
   rw [exec_ite' prog (hf (m + 8))]
   have hne : ¬ n + 1 = 0 := by omega
-  simp only [evalE, get_set_eq _ _ _ (show 1 < env1.size from by rw [inv1.size]; decide), reduceCtorEq, if_false, castVal_u32_i32_zero,
+  simp only [evalE, get_set_eq _ _ _ (show 1 < env1.size from by have := inv1.size; have := inv1.big; omega), reduceCtorEq, if_false, castVal_u32_i32_zero,
     BinOp.needsPub2, BinOp.needsPub1, Bool.false_and, Bool.or_self, Bool.false_eq_true, binVal, hne, decide_false, b2n, Lab.join_pub_pub, ne_eq,
     not_true_eq_false, show ((0 : Nat) != 0) = false from rfl]
   rw [exec_skip' prog (hf (m + 7))]
@@ -453,16 +480,17 @@ theorem loop128_two (prog : Program) (f : Nat → Nat) (hf : ∀ i, f (i + 1) = 
     Ty.modulus, Lab.join_pub_pub, dec32 n (by omega)]
 
 
-theorem KM.leak {st : St} {bs : Nat} {blk : Block} {k0 k1 k2 k3 : Nat} (h : KM st bs blk k0 k1 k2 k3) (l : List Ev) :
-    KM { st with leak := l } bs blk k0 k1 k2 k3 := ⟨h.hb, h.al, h.lt, h.bb, h.sz, h.r0, h.r1, h.r2, h.r3⟩
+theorem KM.leak {st : St} {bs : Nat} {blk : Block} {o k0 k1 k2 k3 k4 k5 k6 k7 : Nat} (h : KM st bs blk o k0 k1 k2 k3 k4 k5 k6 k7) (l : List Ev) :
+    KM { st with leak := l } bs blk o k0 k1 k2 k3 k4 k5 k6 k7 :=
+  ⟨h.hb, h.al, h.lt, h.bb, h.sz, h.oal, h.osz, h.r0, h.r1, h.r2, h.r3, h.r4, h.r5, h.r6, h.r7⟩
 
-/-- **the loop of `tinyjambu_permutation_128`**: for every round count below 2^32 it terminates with the counter at 0 and the four state
-    words equal to `permN128` of the initial ones; memory is only read -/
-theorem loop128_spec (prog : Program) (f : Nat → Nat) (hf : ∀ i, f (i + 1) = Fu (f i)) (k0 k1 k2 k3 bs : Nat) (blk : Block) :
-    ∀ (r m : Nat) (env : Env) (st : St) (a b c d : Nat), r < 4294967296 → Inv env (mkPtr bs blk.base) r a b c d → KM st bs blk k0 k1 k2 k3 →
-    ∃ env' leak', exec prog (f (m + r + 18)) loop128 env st = .ok .normal env' { st with leak := leak' } ∧
-      Inv env' (mkPtr bs blk.base) 0 (permN128 k0 k1 k2 k3 r (a, b, c, d)).1 (permN128 k0 k1 k2 k3 r (a, b, c, d)).2.1
-        (permN128 k0 k1 k2 k3 r (a, b, c, d)).2.2.1 (permN128 k0 k1 k2 k3 r (a, b, c, d)).2.2.2 := by
+/-- **the loop of `tinyjambu_permutation_128` / `_256`**: for every round count below 2^32 it terminates with the counter at 0 and the
+    four state words equal to `permNG` of the initial ones; memory is only read -/
+theorem loopG_spec (prog : Program) (f : Nat → Nat) (hf : ∀ i, f (i + 1) = Fu (f i)) (o nv k0 k1 k2 k3 k4 k5 k6 k7 bs : Nat) (blk : Block) :
+    ∀ (r m : Nat) (env : Env) (st : St) (a b c d : Nat), r < 4294967296 → Inv nv env (mkPtr bs blk.base) r a b c d → KM st bs blk o k0 k1 k2 k3 k4 k5 k6 k7 →
+    ∃ env' leak', exec prog (f (m + r + 18)) (loopG o) env st = .ok .normal env' { st with leak := leak' } ∧
+      Inv nv env' (mkPtr bs blk.base) 0 (permNG k0 k1 k2 k3 k4 k5 k6 k7 r (a, b, c, d)).1 (permNG k0 k1 k2 k3 k4 k5 k6 k7 r (a, b, c, d)).2.1
+        (permNG k0 k1 k2 k3 k4 k5 k6 k7 r (a, b, c, d)).2.2.1 (permNG k0 k1 k2 k3 k4 k5 k6 k7 r (a, b, c, d)).2.2.2 := by
   intro r
   induction r using Nat.strongRecOn with
   | ind r ih =>
@@ -471,16 +499,16 @@ theorem loop128_spec (prog : Program) (f : Nat → Nat) (hf : ∀ i, f (i + 1) =
     | 0, _, _, inv =>
       refine ⟨env, Ev.br false :: st.leak, ?_, inv⟩
       rw [show m + 0 + 18 = (m + 15) + 3 from by omega]
-      exact loop128_zero prog f hf (m + 15) env st _ a b c d inv
+      exact loopG_zero prog f hf (m + 15) o nv env st _ a b c d inv
     | 1, _, _, inv =>
-      obtain ⟨env', l', h, i'⟩ := loop128_one prog f hf (m + 1) env st a b c d k0 k1 k2 k3 bs blk inv km
+      obtain ⟨env', l', h, i'⟩ := loopG_one prog f hf (m + 1) o nv env st a b c d k0 k1 k2 k3 k4 k5 k6 k7 bs blk inv km
       exact ⟨env', l', by rw [show m + 1 + 18 = m + 1 + 18 from rfl]; exact h, i'⟩
     | n + 2, ih, hr, inv =>
-      obtain ⟨env1, l1, h1, i1⟩ := loop128_two prog f hf (m + n + 2) env st n a b c d k0 k1 k2 k3 bs blk hr inv km
+      obtain ⟨env1, l1, h1, i1⟩ := loopG_two prog f hf (m + n + 2) o nv env st n a b c d k0 k1 k2 k3 k4 k5 k6 k7 bs blk hr inv km
       obtain ⟨env2, l2, h2, i2⟩ := ih n (by omega) (m + 1) env1 { st with leak := l1 } _ _ _ _ (by omega) i1 (km.leak l1)
       refine ⟨env2, l2, ?_, ?_⟩
       · rw [show m + (n + 2) + 18 = m + n + 2 + 18 from by omega, h1, show m + n + 2 + 17 = m + 1 + n + 18 from by omega]
         exact h2
-      · simpa [permN128] using i2
+      · simpa [permNG] using i2
 
 end TJ.MiniC.PermC
